@@ -353,27 +353,43 @@ func sfeAmbiguousKeys(script []byte) bool {
 	return false
 }
 
+func sfeSameKey(a, b []byte) bool {
+	if bytes.Equal(a, b) {
+		return true
+	}
+	ka, err := btcec.ParsePubKey(a)
+	if err != nil {
+		return false
+	}
+	kb, err := btcec.ParsePubKey(b)
+	if err != nil {
+		return false
+	}
+	return ka.IsEqual(kb)
+}
+
 // ---------------------------------------------------------------- what an input needs
 
 type sfeView struct {
-	final      bool
-	sigs       [][2][]byte
-	sht        uint32
-	rs, ws     []byte
-	tapKeySig  []byte
-	tapSigs    []psetv2.TapScriptSig
-	leafHashes [][]byte
+	hasNW, hasWU bool
+	final        bool
+	sigs         [][2][]byte
+	sht          uint32
+	rs, ws       []byte
+	tapKeySig    []byte
+	tapSigs      []psetv2.TapScriptSig
+	leafHashes   [][]byte
 }
 
 func sfeView0(in *pset.PInput) sfeView {
-	v := sfeView{final: in.FinalScriptSig != nil || in.FinalScriptWitness != nil, sht: uint32(in.SighashType), rs: in.RedeemScript, ws: in.WitnessScript}
+	v := sfeView{hasNW: in.NonWitnessUtxo != nil, hasWU: in.WitnessUtxo != nil, final: in.FinalScriptSig != nil || in.FinalScriptWitness != nil, sht: uint32(in.SighashType), rs: in.RedeemScript, ws: in.WitnessScript}
 	for _, ps := range in.PartialSigs {
 		v.sigs = append(v.sigs, [2][]byte{ps.PubKey, ps.Signature})
 	}
 	return v
 }
 func sfeView2(in *psetv2.Input) sfeView {
-	v := sfeView{final: len(in.FinalScriptSig) > 0 || len(in.FinalScriptWitness) > 0, sht: uint32(in.SigHashType), rs: in.RedeemScript, ws: in.WitnessScript,
+	v := sfeView{hasNW: in.NonWitnessUtxo != nil, hasWU: in.WitnessUtxo != nil, final: len(in.FinalScriptSig) > 0 || len(in.FinalScriptWitness) > 0, sht: uint32(in.SigHashType), rs: in.RedeemScript, ws: in.WitnessScript,
 		tapKeySig: in.TapKeySig, tapSigs: in.TapScriptSig}
 	for _, ps := range in.PartialSigs {
 		v.sigs = append(v.sigs, [2][]byte{ps.PubKey, ps.Signature})
@@ -477,6 +493,74 @@ func sfeCheckFinalized(c *sfeCase, k int, v *sfeView, valid func(k int, pk, sig 
 }
 
 // a panic inside a role function is a robustness defect (C12), not a statement about C09
+// (e) is input k, as it stands, a supported ECDSA template holding a complete set of valid
+// signatures of the declared type, made with keys of the spent script as the script spells
+// them? Then Finalize has to succeed. keyOf gives the key a signature was handed in with.
+func sfeComplete(c *sfeCase, k int, v *sfeView, v2 bool, keyOf func(k int, pk, sig []byte) []byte, valid func(k int, pk, sig []byte) bool) (string, bool) {
+	prev := c.prevout(k)
+	if prev == nil || v.final || len(v.sigs) == 0 {
+		return "", false
+	}
+	spk := prev.Script
+	for _, ps := range v.sigs {
+		sig := ps[1]
+		if len(sig) == 0 || uint32(sig[len(sig)-1]) != sfeEffType(v.sht) || !valid(k, ps[0], sig) || keyOf(k, ps[0], sig) == nil {
+			return "", false
+		}
+	}
+	single := func() []byte {
+		if len(v.sigs) != 1 {
+			return nil
+		}
+		return keyOf(k, v.sigs[0][0], v.sigs[0][1])
+	}
+	multisig := func(script []byte, maxLen int) bool {
+		m, keys, ok := sfeParseMultisig(script)
+		if !ok || m < 1 || len(v.sigs) != m || len(script) > maxLen || sfeAmbiguousKeys(script) {
+			return false
+		}
+		seen := map[string]bool{}
+		for _, ps := range v.sigs {
+			key := keyOf(k, ps[0], ps[1])
+			found := false
+			for _, x := range keys {
+				found = found || bytes.Equal(x, key)
+			}
+			if !found || seen[string(key)] {
+				return false
+			}
+			seen[string(key)] = true
+		}
+		return true
+	}
+	none := func(b []byte) bool { return len(b) == 0 && (v2 || b == nil) }
+	switch {
+	case sfeIsP2PKH(spk):
+		key := single()
+		return "p2pkh", key != nil && v.hasNW && !v.hasWU && none(v.rs) && none(v.ws) && bytes.Equal(btcutil.Hash160(key), spk[3:23])
+	case sfeIsP2WPKH(spk):
+		key := single()
+		return "p2wpkh", key != nil && v.hasWU && none(v.rs) && none(v.ws) && bytes.Equal(btcutil.Hash160(key), spk[2:])
+	case sfeIsP2WSH(spk):
+		h := sha256.Sum256(v.ws)
+		return "p2wsh", v.hasWU && none(v.rs) && bytes.Equal(h[:], spk[2:]) && multisig(v.ws, 10000)
+	case sfeIsP2SH(spk):
+		if !bytes.Equal(btcutil.Hash160(v.rs), spk[2:22]) {
+			return "", false
+		}
+		switch {
+		case sfeIsP2WPKH(v.rs):
+			key := single()
+			return "p2sh-p2wpkh", key != nil && v.hasWU && none(v.ws) && bytes.Equal(btcutil.Hash160(key), v.rs[2:])
+		case sfeIsP2WSH(v.rs):
+			h := sha256.Sum256(v.ws)
+			return "p2sh-p2wsh", v.hasWU && bytes.Equal(h[:], v.rs[2:]) && multisig(v.ws, 10000)
+		}
+		return "p2sh", v.hasNW && !v.hasWU && none(v.ws) && multisig(v.rs, 520)
+	}
+	return "", false
+}
+
 func checkSfe(t *Toks, v2 bool) (res string) {
 	defer func() {
 		if e := recover(); e != nil {
@@ -484,13 +568,19 @@ func checkSfe(t *Toks, v2 bool) (res string) {
 		}
 	}()
 	c := sfeReadCase(t, v2)
-	valid := func(k int, pk, sig []byte) bool {
-		for _, o := range c.orc {
-			if o.k == k && bytes.Equal(o.pk, pk) && bytes.Equal(o.sig, sig) {
-				return o.bit
+	// the table entry of a signature held by input k; the key may be held under another encoding
+	entry := func(k int, pk, sig []byte) *sfeOrc {
+		for i := range c.orc {
+			o := &c.orc[i]
+			if o.k == k && bytes.Equal(o.sig, sig) && sfeSameKey(o.pk, pk) {
+				return o
 			}
 		}
-		return false
+		return nil
+	}
+	valid := func(k int, pk, sig []byte) bool {
+		o := entry(k, pk, sig)
+		return o != nil && o.bit
 	}
 	var p0 *pset.Pset
 	var p2 *psetv2.Pset
@@ -525,6 +615,12 @@ func checkSfe(t *Toks, v2 bool) (res string) {
 	for j := range c.ops {
 		op := &c.ops[j]
 		before := views()
+		saneBefore := false
+		if v2 {
+			saneBefore = p2.SanityCheck() == nil
+		} else {
+			saneBefore = p0.SanityCheck() == nil
+		}
 		var err error
 		var tx, utx *transaction.Transaction
 		switch op.kind {
@@ -596,6 +692,49 @@ func checkSfe(t *Toks, v2 bool) (res string) {
 		switch op.kind {
 		case "F", "M", "FA", "MA":
 			after := views()
+			// (e) a complete signature set has to finalize (an error after the input was finalized, from
+			// the closing sanity check over the whole packet, is not a refusal)
+			if err != nil && saneBefore && (op.kind == "F" || op.kind == "FA") {
+				keyOf := func(k int, pk, sig []byte) []byte {
+					if o := entry(k, pk, sig); o != nil {
+						return o.pk
+					}
+					return nil
+				}
+				ver := "v0"
+				if v2 {
+					ver = "v2"
+				}
+				if op.kind == "F" && op.k < len(before) && op.k < len(after) && !after[op.k].final {
+					if name, ok := sfeComplete(c, op.k, &before[op.k], v2, keyOf, valid); ok {
+						return sfeFail("complete-set-refused", ver+"-"+name)
+					}
+				}
+				if op.kind == "FA" && len(after) == len(before) && len(before) > 0 {
+					if v2 {
+						// atomic: nothing is kept when any input fails, so every input has to be complete
+						all, name := true, ""
+						for k := range before {
+							n, ok := sfeComplete(c, k, &before[k], v2, keyOf, valid)
+							all = all && ok && !after[k].final
+							name = n
+						}
+						if all {
+							return sfeFail("complete-set-refused", ver+"-all-"+name)
+						}
+					} else {
+						// v0 stops at the first input it cannot finalize
+						for k := range before {
+							if !after[k].final {
+								if name, ok := sfeComplete(c, k, &before[k], v2, keyOf, valid); ok {
+									return sfeFail("complete-set-refused", ver+"-"+name)
+								}
+								break
+							}
+						}
+					}
+				}
+			}
 			for k := 0; k < nin && k < len(after) && k < len(before); k++ {
 				if !before[k].final && after[k].final {
 					if pv := c.prevout(k); pv != nil {
